@@ -288,6 +288,59 @@ func C10(e *simkern.Env) {
 				reason = r2
 			}
 		}
+		// HTTP once more, one client, while the operator changes the declared
+		// protocol version between requests (off, on again, another major or
+		// minor): every call is judged against the version in force when it was
+		// made — what the server admitted earlier must not matter
+		if !e.Violated() && reason == simkern.StopDone && tp.Bool(1, 2) {
+			hx.Rec.Reset()
+			var srv *vgirpc.Server
+			cl := httpw.NewCluster(httpw.Config{Key: []byte("0123456789abcdef0123456789abcdef"), CacheSizes: []int{-1}, NoTwin: true,
+				Setup: func(i int, s *vgirpc.Server, h *vgirpc.HttpServer) { cfgSrv(s); srv = s }})
+			orig := server
+			sim.Spawn("http-reversioned", func() {
+				for round := 0; round < 2; round++ {
+					for i, ca := range calls {
+						if e.Violated() {
+							return
+						}
+						sim.Y("client.op")
+						if tp.Bool(1, 3) {
+							nv := ""
+							if !tp.Bool(1, 3) {
+								nv = fmt.Sprintf("%d.%d.%d", 1+tp.Draw(4), tp.Draw(4), tp.Draw(4))
+							}
+							sim.Fault("operator-changes-protocol-version")
+							srv.SetProtocolVersion(nv)
+							server = nv
+						}
+						nonce := int64(10500 + round*100 + i)
+						op := *ca.op
+						sc := *ca.op.Script
+						sc.Nonce = nonce
+						op.Script = &sc
+						path := "/" + op.Method
+						if op.Kind == "stream" {
+							path += "/init"
+						}
+						t := httpw.Decode(httpw.Post(cl.Inst[0], path, pipew.RequestBytes(&op), httpw.Ident{}, nil))
+						if t.Resp.Panicked != nil {
+							e.Violate("panic", "http-reversioned:"+op.Kind, "panic: %v", t.Resp.Panicked)
+							return
+						}
+						ran := hx.Rec.Get(nonce).InitCalls > 0
+						if judge("http-reversioned", i, ran, t.Err) {
+							return
+						}
+					}
+				}
+			})
+			r4, _ := sim.Run(simkern.RunOpts{MaxSteps: 100000, Done: sim.RootsDone})
+			server = orig
+			if r4 != simkern.StopDone {
+				reason = r4
+			}
+		}
 		e.Conclude(sim, reason, false)
 		e.Res.Nontrivial = judged > 0
 	})
@@ -300,11 +353,11 @@ func init() {
 	Registry["C10"] = &Info{
 		Run:   C10,
 		Level: "exploration",
-		Rule:  "session-oracle check: each run draws the server's declared version (none in one run out of five, else a random canonical M.m.p) and 3-8 calls (unary, stream init over producer/exchange/dynamic) whose client version string comes from a generator (equal, patch-different, minor/major older and newer, absent, empty, leading zeros, prerelease, build, leading/trailing whitespace, two/four components, v-prefix, non-ASCII digits); the history runs on a simulated pipe (one connection, so refusals are followed by further calls) and over HTTP unary and stream-init from two concurrent client tasks, plus __describe__ with a hostile version on both; distinct = schedule fingerprint",
+		Rule:  "session-oracle check: each run draws the server's declared version (none in one run out of five, else a random canonical M.m.p) and 3-8 calls (unary, stream init over producer/exchange/dynamic) whose client version string comes from a generator (equal, patch-different, minor/major older and newer, absent, empty, leading zeros, prerelease, build, leading/trailing whitespace, two/four components, v-prefix, non-ASCII digits); the history runs on a simulated pipe (one connection, so refusals are followed by further calls) and over HTTP unary and stream-init from two concurrent client tasks, plus __describe__ with a hostile version on both; distinct = schedule fingerprint; in half of the runs the history is played twice more over HTTP by one client while an operator changes the declared protocol version between requests (off, on again, another major/minor), every call judged against the version in force when it was made",
 		Real:  []string{"vgirpc.Server.checkProtocolVersion, serveOne gate, HTTP unary / stream-init gates, describe paths"},
 		Stub:  []string{"transports", "protocol client", "scripted handlers (invocation counters decide 'dispatched')"},
 		Quick: 900, Thorough: 80000,
-		FaultKinds: []string{"malformed-request", "read-fragmentation", "write-delay"},
+		FaultKinds: []string{"malformed-request", "read-fragmentation", "write-delay", "operator-changes-protocol-version"},
 		Assumptions: []string{"'names the side that must upgrade' is judged on the text after the last 'upgrade': it must name the older side (client/extension or server/worker), not the other, and the newer side's version"},
 	}
 }
